@@ -1289,7 +1289,9 @@ class Store:
                 flow_updates.append((
                     process_path, process.flow))
 
-        self._delete_path(source_path)
+        # detach the source node; its parallel processes move along, so
+        # they must not be ended as they are for a deletion
+        del self.get_path(source_path[:-1]).inner[source_path[-1]]
 
         here = self.path_for()
         source_absolute = tuple(here + source_path)
